@@ -305,6 +305,16 @@ C05(cfg, obs) ==
                    (IsShare(cfg) \/ OwnerOf(cfg, obs, nst.par, u) = K)
                    /\ UGreetedBefore(obs, u, e + 1) /\ ~USelfEndedBefore(obs, u, e + 1)
                    /\ ~UStoppedBefore(obs, u, e + 1)}})
+      \cup
+      \* ... and so is an upstream of that subscription that had been subscribed before the failure but
+      \* greets only afterwards (by the end of the step in which it greets)
+      (IF Panicked(obs) \/ IsShare(cfg) THEN {} ELSE
+       {W("C05", "late_sibling_left_running", StepEnd(obs, h), obs[h].fr, cfg, "") :
+          h \in {h \in Calls(obs) :
+                   /\ h > e /\ obs[h].to = "S" /\ obs[h].t = "H" /\ obs[h].fr \in US \ {obs[j].fr}
+                   /\ OwnerOf(cfg, obs, nst.par, obs[h].fr) = K
+                   /\ ~USelfEndedBefore(obs, obs[h].fr, StepEnd(obs, h) + 1)
+                   /\ ~UStoppedBefore(obs, obs[h].fr, StepEnd(obs, h) + 1)}})
       : K \in sinksOf(j)}
     : j \in fails}
 
